@@ -283,7 +283,11 @@ pub fn run(a: &Args, acc: &mut Acc) {
         }
         i += 1;
         let nroutes = rng.below(7) as usize;
-        let allow: Vec<Route> = (0..nroutes).map(|_| { let h = 1 + rng.below(4) as usize; gen_route(&mut rng, h) }).collect();
+        let mut allow: Vec<Route> = (0..nroutes).map(|_| { let h = 1 + rng.below(4) as usize; gen_route(&mut rng, h) }).collect();
+        if rng.chance(1, 6) {
+            // nothing validates the allow-list: it may hold an empty route
+            allow.push(vec![]);
+        }
         for (cand, family) in candidates(&mut rng, &allow) {
             for exact_in in [true, false] {
                 let endpoint_ok = rng.chance(3, 4);
